@@ -13,7 +13,7 @@ CHECKS = {
         "exploration",
         "history + executable sequential model: every batch result compared bit for bit with one-at-a-time evaluation under real dask schedulers, an adversarial executor (seeded and enumerated start/release orders), forced partition sizes, sys.monitoring yield injection with the shared kernel object frozen, per-position failpoints cycling through 16 exception types (StopIteration at every position), a kernel object reconfigured after construction, and the shipped pressure-map cloud model as the cloud function with the one-at-a-time model evaluated in reverse order",
         "Observed schedules: synchronous, threads 1/2/8/16, processes 2[/4]; partition sizes {1,2,3,7,100,n,n+1}; 60..300 adversarial schedules incl. all P! start orders for P=4[,5]; 12..240 yield-injected 4-thread runs (tens of thousands of forced thread switches at hundreds of source lines); a failing event at every position of 25 and at 5 positions of 250 under each scheduler; every batch uses a cloud function whose top depends on the event (incl. NaN tops); an event that raises when evaluated alone must make the batch raise. The quantifier is over all schedules: a finite set is explored.",
-        "Trusted: dask's scheduler hooks (pool=, num_workers), CPython's sys.monitoring. TSan/helgrind are noise on CPython and are not used; Python-level races are attacked by forced GIL hand-offs and a frozen shared object.",
+        "Trusted: dask's scheduler hooks (pool=, num_workers), CPython's sys.monitoring. TSan/helgrind are noise on CPython and are not used; Python-level races are attacked by forced GIL hand-offs and a frozen shared object, the empty batch.",
         "5 (C10)",
     ),
     "C11": (
@@ -25,7 +25,7 @@ CHECKS = {
     ),
     "C13": (
         "exploration",
-        "reference-model monitor with independent astrometry (ICRS/GCRS->ITRS directions dotted with the geodetic normal, topocentric Sun/Moon, phase angle from vectors, coarse GMST formula) and guard bands; explicit ray-sphere triangle; per-instant and monotonicity monitors on the dark-sky cut; channel application through the real mcintegral at trigger thresholds 10, 0 and -1; instant-grid sweep over every N, with Python and numpy integer counts",
+        "reference-model monitor with independent astrometry (ICRS/GCRS->ITRS directions dotted with the geodetic normal, topocentric Sun/Moon, phase angle from vectors, coarse GMST formula) and guard bands; explicit ray-sphere triangle; per-instant and monotonicity monitors on the dark-sky cut; channel application through the real mcintegral at trigger thresholds 10, 0 and -1; instant-grid sweep over every N, with Python and numpy integer counts; limit edges (emergence angle within 3 ulps of the horizon for altitudes 1..400 km, limb angles beyond the whole disc, half / single precision time fractions)",
         "Observed executions over 96..480 seeded target configurations (sources on the sphere incl. poles, dates 2020-2026, T 10 s..30 d, N 1..2000 incl. 49 and 103 for the full monitors and every N in 1..1500 (12000 thorough) x 7 durations for the instant grid, detector incl. poles and longitudes in any convention (-2pi..2pi), cut thresholds default / always / never / exactly 0 / random): every instant judged outside the guard bands; numbers judged are in the evidence.",
         "Trusted: astropy's transformations, ephemerides and IERS tables. Guard bands 1e-3 deg (source), 0.01 deg (Sun, Moon), 1e-6 deg (phase): instants inside are not judged.",
         "5 (C13)",
@@ -46,7 +46,7 @@ CHECKS = {
     ),
     "C16": (
         "exploration",
-        "round-trip monitor on real Table.write/read of results tables (synthetic on results_table.init and from real runs), header completeness incl. values, reconstruction compared on the fields config_from_fits is observed to fill; numpy scalars left in the configuration, runs without surviving trajectories, the command-line path incl. -w compared with an in-process compute(); configurations without an ionosphere block; hostile ASCII strings (quote/slash pairs, trailing ampersands, single-card and CONTINUE-card lengths); mechanism-keyed classifiers for the two open header findings (float text, string card grammar)",
+        "round-trip monitor on real Table.write/read of results tables (synthetic on results_table.init and from real runs), header completeness incl. values, reconstruction compared on the fields config_from_fits is observed to fill; numpy scalars left in the configuration, runs without surviving trajectories, the command-line path incl. -w compared with an in-process compute(); configurations without an ionosphere block; hostile ASCII strings (quote/slash pairs, trailing ampersands, single-card and CONTINUE-card lengths); mechanism-keyed classifiers for the two open header findings (float text, string card grammar); the show-plot command on the files of two-channel, radio-only, optical-only and empty runs",
         "120..2000 synthetic tables (all stored dtypes incl. Time and 2-D fields; one third with 17-digit floats, two thirds with short-text floats that must be exact; reused configuration objects) plus 4..24 tables from real runs; every column, header value, configuration entry and reconstructed field compared.",
         "Trusted: astropy.io.fits. Float header differences are accepted only as KNOWN-FINDING fits-header:float-text-exceeds-card and only when the card-cutting rule predicts the exact read-back value (or a write failure cut inside the exponent). String differences are accepted only as KNOWN-FINDING fits-header:string-card-grammar: the value contains a quote followed by blanks and a slash (single-card values: read-back equals the predicted cut) or needs CONTINUE cards and ends with '&'.",
         "5 (C16)",
@@ -60,7 +60,7 @@ CHECKS = {
     ),
     "C20": (
         "exploration",
-        "two-run relations on the real EASRadio + calculate_snr (identically seeded), finiteness/range monitors on events from the real upstream stages with hostile decay numbers, exhaustive enumeration of all 13 695 aligned bands against an independent evaluation of the parametrisation, SNR re-derived from the formulas",
+        "two-run relations on the real EASRadio + calculate_snr (identically seeded), finiteness/range monitors on events from the real upstream stages with hostile decay numbers, exhaustive enumeration of all 13 695 aligned bands against an independent evaluation of the parametrisation, SNR re-derived from the formulas; half / single precision and integer event arrays against the same numbers as doubles",
         "5 detector altitudes (ionosphere branch at 90 km) x band/TEC variants x 300..2500 events incl. lenDec in {0, 1e-17, ...}, decays at closest approach, altDec in {0, 10, 10+ulp} and degenerate out-of-range decays (at the detector altitude, +-inf, below ground on a grazing track); energy factors, antenna counts, permutations incl. a 20000..70001-event batch; every band enumerated; detectors inside the decay range (5, 8 km). A decay at exactly the detector's altitude gives inf/NaN (KNOWN-FINDING radio:decay-at-detector-altitude, fixed witness).",
         "Trusted: numpy, the shipped parameter tables (read from the file, not from the object under test). Antenna gain positive.",
         "5 (C20)",
@@ -74,14 +74,14 @@ CHECKS = {
     ),
     "C02": (
         "exploration",
-        "reference-model monitor with explicit 3-D vectors on every thrown event of the closed unit cube; closed-form inverse-CDF residual in 50-digit decimal; position oracle along kept trajectories incl. after a second throw on the same object; history monitor (same-size throw on a used object equals the fresh object's, every array, bit for bit); special points where a sine or cosine of the construction is exactly +-1 (pole, vertical trajectory, nadir) +-3 ulps; annuli reaching the sub-detector point for altitudes 1..200 km",
+        "reference-model monitor with explicit 3-D vectors on every thrown event of the closed unit cube; closed-form inverse-CDF residual in 50-digit decimal; position oracle along kept trajectories incl. after a second throw on the same object; history monitor (same-size throw on a used object equals the fresh object's, every array, bit for bit); special points where a sine or cosine of the construction is exactly +-1 (pole, vertical trajectory, nadir) +-3 ulps; annuli reaching the sub-detector point for altitudes 1..200 km; single / half precision random-number arrays against the same numbers as doubles",
         "Observed executions of RegionGeom.throw on a closed-cube boundary catalogue (all face/edge/vertex combinations, denormals, 1-2^-53, u4 ladders) plus 4e4..1.5e5 interior points for 12..160 detector positions incl. poles and the date line; every event judged for range, inverse-CDF image, ground spot, emergence angle and keep mask; positions along trajectories at 5 distances.",
         "Trusted: numpy, python decimal. Inverse-CDF tolerance 1e-10 of the CDF range plus 32 ulps of l (the property gives no figure; the trigonometric solver carries tens of ulps). Altitude along a trajectory is observable only through the ground offset.",
         "5 (C02)",
     ),
     "C03": (
         "exploration",
-        "independent re-evaluation of the documented estimator (math.fsum loops, own derivation of the sampling normalisation) from the event columns; metamorphic monitors (permutation, threshold ladder, bound, call history, second throw); both channels evaluated on the same arrays with the oracle reading pristine copies and an inputs-unchanged monitor; single-survivor cases; monitored full compute() runs recomputing header keywords and per-event columns from the final table; the horizon face u4 = 0 (open finding diffuse:horizon-face-weight, fixed witnesses)",
+        "independent re-evaluation of the documented estimator (math.fsum loops, own derivation of the sampling normalisation) from the event columns; metamorphic monitors (permutation, threshold ladder, bound, call history, second throw); both channels evaluated on the same arrays with the oracle reading pristine copies and an inputs-unchanged monitor; single-survivor cases; monitored full compute() runs recomputing header keywords and per-event columns from the final table; the horizon face u4 = 0 (open finding diffuse:horizon-face-weight, fixed witnesses); half / single precision per-event arrays against the same numbers as doubles",
         "Direct: the real mcintegral of both geometry classes on generated arrays incl. trigger == threshold, cosines on the cone edge, decay exactly at / beyond the path length, both methods, dark-sky cut on/off (1e5 events per run). Full runs: 5 (quick) / 13 (thorough) monitored simulations in both modes and channels incl. the 1/E spectrum.",
         "Trusted: numpy; the dark-sky mask itself is taken from the real sun_moon_cut (C13 decides its correctness). Sums compared at 1e-9 relative plus a stated conditioning allowance; counts exactly.",
         "5 (C03)",
@@ -97,7 +97,7 @@ CHECKS = {
         "exploration",
         "probes on CphotAng.__call__/run recording what EAS.__call__ hands to the kernel and gets back; recomputation of PEs and the effective angle; two-run inverse-square relation with independent straight-line distances (detectors from 5 km to 36000 km, incl. detectors below some of the decays); call history on one EAS object; configuration edited between runs; integer emergence-angle arrays against the same numbers as doubles",
         "Observed executions of the real EAS.__call__ for 3..5 detector altitudes x 3 optical settings with hostile decay altitudes (-inf, -5e-324, 0, 20, 20+ulp, +inf ...), thresholds giving PE/threshold exactly 2 and one ulp either side, and 150..1500 two-detector kernel runs.",
-        "Trusted: numpy. Squared-ratio tolerance 1e-3 (float32 viewing angle); for detectors below 33 km plus the stated float32 conditioning eps32 (R+z)/d of a short shower-detector distance. Synchronous scheduler (schedules are C10's subject).",
+        "Trusted: numpy. Squared-ratio tolerance 1e-4 for every detector and every shower-detector distance, decays 1 m from a detector inside the decay range included (only a decay exactly at the detector, where the ratio itself is infinite, is skipped). Synchronous scheduler (schedules are C10's subject).",
         "5 (C08)",
     ),
     "C09": (
